@@ -120,6 +120,14 @@ func (_this *Session) GetBuilderGeneratorForType(dstType reflect.Type) BuilderGe
 			// Don't leave the placeholder behind: every later use of this
 			// type would wait forever for a generator that never arrives.
 			_this.builderGenerators.Delete(dstType)
+			// Nor the generators that were built on top of it meanwhile
+			// (pointers to it, slices of it...): a fresh session has none.
+			_this.builderGenerators.Range(func(key, _ interface{}) bool {
+				if common.TypeReaches(key.(reflect.Type), dstType) {
+					_this.builderGenerators.Delete(key)
+				}
+				return true
+			})
 			builderGenerator = func(ctx *Context) Builder { panic(r) }
 			wg.Done()
 			panic(r)
